@@ -1,6 +1,7 @@
 package an
 
 import (
+	"fmt"
 	"go/constant"
 	"go/token"
 	"go/types"
@@ -1218,4 +1219,78 @@ func AllPathsReturnAvoidingNot(b *ssa.BasicBlock, through ssa.Instruction) bool 
 // executing avoid.
 func PathFromEntryAvoidingTo(fn *ssa.Function, target, avoid ssa.Instruction) bool {
 	return PathFromEntryAvoiding(fn, func(in ssa.Instruction) bool { return in == target }, []ssa.Instruction{avoid})
+}
+
+// ExprKey renders a value as a structural expression so that two separately computed but
+// syntactically identical accesses (m[k][j], *x.f) compare equal: field loads by access path,
+// lookups by map+index, extracts/calls by identity of the producing instruction.
+func ExprKey(v ssa.Value) string {
+	switch x := v.(type) {
+	case nil:
+		return "<nil>"
+	case *ssa.Lookup:
+		return ExprKey(x.X) + "[" + ExprKey(x.Index) + "]"
+	case *ssa.Extract:
+		if lk, ok := x.Tuple.(*ssa.Lookup); ok && x.Index == 0 {
+			return ExprKey(lk.X) + "[" + ExprKey(lk.Index) + "]"
+		}
+		return fmt.Sprintf("extract#%d(%p)", x.Index, x.Tuple)
+	case *ssa.Const:
+		return "const:" + x.String()
+	case *ssa.ChangeType:
+		return ExprKey(x.X)
+	case *ssa.MakeInterface:
+		return ExprKey(x.X)
+	}
+	if p, ok := AccessPath(v); ok {
+		return p
+	}
+	return fmt.Sprintf("%T(%p)", v, v)
+}
+
+// ReachableAssuming reports whether target is reachable from fn's entry on a path that is
+// feasible when value `v` equals constant k: at every If whose condition compares (a value equal
+// to) v with a constant only the consistent successor is followed; all other conditions are
+// unconstrained (both successors).
+func ReachableAssuming(fn *ssa.Function, v ssa.Value, k constant.Value, target ssa.Instruction) bool {
+	if len(fn.Blocks) == 0 {
+		return false
+	}
+	seen := map[*ssa.BasicBlock]bool{}
+	var walk func(b *ssa.BasicBlock) bool
+	walk = func(b *ssa.BasicBlock) bool {
+		if seen[b] {
+			return false
+		}
+		seen[b] = true
+		if b == target.Block() {
+			return true
+		}
+		succs := b.Succs
+		if ifi, ok := b.Instrs[len(b.Instrs)-1].(*ssa.If); ok {
+			if bo, ok := ifi.Cond.(*ssa.BinOp); ok && (bo.Op == token.EQL || bo.Op == token.NEQ) {
+				var c *ssa.Const
+				var other ssa.Value
+				if cc, ok := bo.Y.(*ssa.Const); ok {
+					c, other = cc, bo.X
+				} else if cc, ok := bo.X.(*ssa.Const); ok {
+					c, other = cc, bo.Y
+				}
+				if c != nil && c.Value != nil && SameValue(Strip(other), Strip(v)) {
+					if constant.Compare(k, bo.Op, c.Value) {
+						succs = b.Succs[:1]
+					} else {
+						succs = b.Succs[1:2]
+					}
+				}
+			}
+		}
+		for _, s := range succs {
+			if walk(s) {
+				return true
+			}
+		}
+		return false
+	}
+	return walk(fn.Blocks[0])
 }
